@@ -292,7 +292,7 @@ impl Property for C13 {
         vec!["counter presets stand for long-running sessions (2^62 packets cannot be sent in a test); values stay below 2^62-1, the varint limit".into()]
     }
     fn pbt(&self, tier: Tier) -> PbtCfg {
-        PbtCfg { cases: tier.pick(2_500, 60_000), max_len: tier.pick(1500, 4000), shrink_ms: 120_000 }
+        PbtCfg { cases: tier.pick(2_500, 10_000), max_len: tier.pick(1500, 3000), shrink_ms: 120_000 }
     }
     fn required_labels(&self) -> Vec<&'static str> {
         vec!["wide_varint", "full_packet_tiny_messages", "ack_60_ranges", "renet_packet_near_limit", "payload_at_limit", "netcode_case", "gap_burst", "descending_arrival", "tiny_burst"]
